@@ -647,6 +647,7 @@ class Prop(Check):
         "Imp.C25_connected_loaded",
         "Imp.C25_loaded_resolvable",
         "Imp.C25_load_iff",
+        "Imp.C25_opened_exact",
     ]
     DRIVER = "Drivers/Imp.lean"
     QUICK_CASES = 340
